@@ -31,5 +31,30 @@ theorem run_range {P : Nat} (c : RSICfg) (k0 : Candle ℚ) (hv : RSI.validate c 
     cs [] s0 ⟨[], [], ra, ra, fun x hx => by simp at hx, fun x hx => by simp at hx⟩
   exact ⟨s0, os, s', h0, hr, hlen, hout⟩
 
+/-- C12 over whole streams after the `fix:` that clamps the quotient: RSI with EVERY kind of moving average (the
+    overshooting ones included: HMA, DEMA, TEMA, LinReg), from its constructor, on every candle stream: no step panics and
+    the value is in [0, 1] at every step -/
+theorem run_range_every_kind {P : Nat} (c : RSICfg) (k0 : Candle ℚ) (hv : RSI.validate c = true)
+    (h1 : validLen P c.ma.kind c.ma.length) (cs : List (Candle ℚ)) :
+    ∃ s0 outs s', RSI.init P c k0 = .ok s0 ∧ runM RSI.vals s0 cs = .ok (outs, s') ∧ outs.length = cs.length ∧
+      ∀ i (hi : i < outs.length), ∃ v, outs[i] = [v] ∧ 0 ≤ v.value ∧ v.value ≤ 1 := by
+  obtain ⟨a, ha, ra⟩ := every_kind_realises (P := P) c.ma.kind c.ma.length 0 h1
+  have e1 : c.ma = { kind := c.ma.kind, length := c.ma.length } := rfl
+  set s0 : RSI := { cfg := c, previous_input := k0.source c.source, posma := a, negma := a, cross_upper := Cross.new (half, 1 - c.zone), cross_lower := Cross.new (half, c.zone) } with hs0
+  have h0 : RSI.init P c k0 = .ok s0 := by
+    unfold RSI.init
+    rw [if_pos hv, e1, ha]
+    rfl
+  obtain ⟨os, s', hr, _, hlen, hout⟩ := runM_invariant RSI.vals
+    (fun _ s => ∃ gains losses, Realises (specOf c.ma.kind c.ma.length 0) s.posma gains ∧
+      Realises (specOf c.ma.kind c.ma.length 0) s.negma losses)
+    (fun _ o => ∃ v, o = [v] ∧ 0 ≤ v.value ∧ v.value ≤ 1)
+    (by
+      rintro _ s k ⟨gains, losses, rp, rn⟩
+      obtain ⟨v, s1', hvv, _, a1, a2, rp', rn', _, _⟩ := vals_spec k rp rn
+      exact ⟨_, s1', hvv, ⟨_, _, rp', rn'⟩, v, rfl, a1, a2⟩)
+    cs [] s0 ⟨[], [], ra, ra⟩
+  exact ⟨s0, os, s', h0, hr, hlen, hout⟩
+
 end RSI
 end Yata.Ind
